@@ -10,15 +10,16 @@ from gen_values import V, N, S, B, L, R, NULL, f2bits, bits2f
 
 PID = "C15"
 MANIFEST = {
-    "text": "36 Coq theorems over the transcribed aggregate built-ins (BuiltinsAgg.v: min max avg sum prod median "
+    "text": "37 Coq theorems over the transcribed aggregate built-ins (BuiltinsAgg.v: min max avg sum prod median "
             "percentile any all dot, incl. the six list-or-varargs argument-collection copies and every partial "
             "operation as an explicit Panic): the calling conventions agree for ALL argument vectors (length-1 "
             "disambiguation stated exactly); sum/prod are Rust's left folds from -0.0/1.0, avg = sum/count; min/max "
             "are bounding elements; median/percentile are order statistics defined by rank counting; the nearest-rank "
             "index is in range and monotone in p, percentile(0)=min, percentile(100)=max (Flocq); exact permutation "
             "invariance up to +-0; Higham-style rounding bounds for sum, prod and avg and permutation invariance up to "
-            "rounding; the panics are characterised exactly (= the two open known findings) and the proposed repair "
-            "is proved panic-free and conservative.  Model tied to the code on every run by a BUILTIN correspondence "
+            "rounding; no arity-respecting call aborts (C15_checked_call_total; the two panics this check found, NaN in "
+            "the sort and percentile of an empty list, were repaired in /repo 710ac9a and the model transcribes the "
+            "repaired code).  Model tied to the code on every run by a BUILTIN correspondence "
             "stream (raw and arity-checked calls, bit-exact arguments, lists of length 0..50 incl. NaN/inf/+-0/huge/"
             "tiny, wrong-typed and missing arguments) and an EVAL stream (list / separate / spread calls through the "
             "real parser and evaluator), plus an implementation-level law search against exact rational references.",
